@@ -35,6 +35,13 @@ Example C10_roundtrip_nonvacuous :
 Proof. exact w_rich_nonvacuous. Qed.
 Print Assumptions C10_roundtrip_nonvacuous.
 
+(* the file determines the state: different fields never share a file *)
+Theorem C10_file_determines_state : forall (V : Type) (conv : V -> V) (f1 f2 : fstate V),
+  wf_field f1 -> wf_field f2 -> f_unit f1 <> Some none_marker -> f_unit f2 <> Some none_marker ->
+  encode f1 = encode f2 -> canon conv f1 = canon conv f2.
+Proof. exact (@encode_injective). Qed.
+Print Assumptions C10_file_determines_state.
+
 (* integers up to 2^53 in magnitude survive the float64 conversion of the reader *)
 Theorem C10_int_payload_exact : forall z : Z, (Z.abs z <= 2 ^ 53)%Z -> round_f64 z = z.
 Proof. exact round_f64_exact. Qed.
@@ -80,6 +87,16 @@ Theorem C10_reader_rejects_unordered : forall (lo hi : list Q) ds us t,
   length lo = length hi -> forallb2 Qltb lo hi = false -> mk_region_minmax lo hi ds us t = Err ValueE.
 Proof. exact mk_region_minmax_unordered. Qed.
 Print Assumptions C10_reader_rejects_unordered.
+
+Theorem C10_reader_refuses_other_types : forall (V : Type) (conv : V -> V) (h : h5new V),
+  h_type h <> file_type -> decode conv (NewFile h) = Err ValueE.
+Proof. exact (@decode_refuses_type). Qed.
+Print Assumptions C10_reader_refuses_other_types.
+
+Theorem C10_reader_refuses_other_versions : forall (V : Type) (conv : V -> V) (h : h5new V),
+  h_type h = file_type -> h_version h <> file_version -> decode conv (NewFile h) = Err RuntimeE.
+Proof. exact (@decode_refuses_version). Qed.
+Print Assumptions C10_reader_refuses_other_versions.
 
 (* ---- the guards of C10_roundtrip_state are necessary: witnesses on the faithful model ---- *)
 (* without "unit is not the text None": the marker written for a missing unit collides *)
